@@ -827,8 +827,9 @@ func (f *Fam) requiredFee(kind string) sdk.Int {
 	return sdk.ZeroInt()
 }
 
-// feeOnly reports whether after == before with exactly fee moved from payer to the collector.
-func feeOnly(before, after *Snapshot, payer string, fee sdk.Int) bool {
+// feeOnly reports whether after == before with exactly fee (and fee2 of the second denomination) moved from payer
+// to the collector.
+func feeOnly(before, after *Snapshot, payer string, fee, fee2 sdk.Int) bool {
 	b := *before
 	b.Bal = map[string]map[string]sdk.Int{}
 	for a, m := range before.Bal {
@@ -838,23 +839,30 @@ func feeOnly(before, after *Snapshot, payer string, fee sdk.Int) bool {
 		}
 		b.Bal[a] = c
 	}
-	if fee.IsPositive() {
+	move := func(denom string, amt sdk.Int) bool {
+		if !amt.IsPositive() {
+			return true
+		}
 		if b.Bal[payer] == nil {
 			return false
 		}
-		nb := balOf(&b, payer, Denom).Sub(fee)
+		nb := balOf(&b, payer, denom).Sub(amt)
 		if nb.IsZero() {
-			delete(b.Bal[payer], Denom)
+			delete(b.Bal[payer], denom)
 			if len(b.Bal[payer]) == 0 {
 				delete(b.Bal, payer)
 			}
 		} else {
-			b.Bal[payer][Denom] = nb
+			b.Bal[payer][denom] = nb
 		}
 		if b.Bal[feeAddr] == nil {
 			b.Bal[feeAddr] = map[string]sdk.Int{}
 		}
-		b.Bal[feeAddr][Denom] = balOf(before, feeAddr, Denom).Add(fee)
+		b.Bal[feeAddr][denom] = balOf(before, feeAddr, denom).Add(amt)
+		return true
+	}
+	if !move(Denom, fee) || !move(Denom2, fee2) {
+		return false
 	}
 	return b.String() == after.String() && paramsEqual(before, after)
 }
@@ -886,7 +894,7 @@ func (f *Fam) checkTx(before, after *Snapshot, r string, bz []byte, msg sdk.Msg,
 	}
 	hash := fmt.Sprintf("%x", tmtypes.Tx(bz).Hash())
 	if r == "err" {
-		if !same && !(signer != "" && feeOnly(before, after, signer, t.feeEff())) {
+		if !same && !(signer != "" && feeOnly(before, after, signer, t.feeEff(), t.fee2Eff())) {
 			fail("rejected-leaves-no-trace", "C11:rejected-tx-changed-state", fmt.Sprintf("rejected %s tx (mut=%s) changed more than the fee", t.kind, t.mut))
 		}
 	}
@@ -942,6 +950,13 @@ func (t txSpec) feeEff() sdk.Int {
 		return t.fee.AddRaw(1)
 	}
 	return t.fee
+}
+
+func (t txSpec) fee2Eff() sdk.Int {
+	if f2, ok := t.f["fee2"]; ok && f2 != "" {
+		return mustInt(f2)
+	}
+	return sdk.ZeroInt()
 }
 
 // checkParams: C17 — a parameter changes only through an accepted governance message from its owner.
